@@ -61,6 +61,8 @@ inductive Panic
   | copyLen         -- `copy_from_slice` length mismatch
   | unwrapNone      -- `.unwrap()` / `.expect()` on a failed conversion
   | drainOob        -- `Vec::drain` range out of bounds
+  | arithOverflow   -- `a - b` with b > a on `usize` (overflow check; without the check the wrapped index is out of range)
+  | assertFailed    -- `assert!(…)`
   deriving DecidableEq, Repr
 
 inductive Res (α : Type) where
